@@ -44,8 +44,12 @@ type byteReader struct {
 
 func (r *byteReader) ReadByte() (byte, error) {
 	var buff = [1]byte{}
-	_, err := r.Read(buff[:])
-	return buff[0], err
+	n, err := r.Read(buff[:])
+	if n > 0 {
+		// the byte may arrive together with io.EOF, the error is reported by the next call.
+		return buff[0], nil
+	}
+	return 0, err
 }
 
 // ToReader wrap message to io.Reader
